@@ -44,6 +44,26 @@ def combine (m : Mode) (s : Sparse) (p : Pos) : Outcome (Nat × Nat) := do
   let v ← addM m ((d <<< s.width) % U64) l.toNat
   return (p.low, v)
 
+/-! `split` / `combine` AS FIRST WRITTEN (before the repair of F13): `index >> self.low.width()` and
+`(high - low) << self.low.width()` with the width itself as shift amount.  Rust: a shift of a `usize` by ≥ 64 panics
+with overflow checks on and uses the amount modulo 64 without them.  For widths 1..63 they agree with the definitions
+above; at width 64 (reachable only through a file) they do not: `Proofs/SparseOld.lean`. -/
+def shiftAmtOld (m : Mode) (w : Nat) : Outcome Nat :=
+  if w < 64 then ok w else match m with
+    | .checked => fault (.panic .overflow)
+    | .wrapping => ok (w % 64)
+
+def splitOld (m : Mode) (s : Sparse) (index : Nat) : Outcome (Nat × Nat) := do
+  let a ← shiftAmtOld m s.width
+  return (index >>> a, index % 2 ^ s.width)
+
+def combineOld (m : Mode) (s : Sparse) (p : Pos) : Outcome (Nat × Nat) := do
+  let d ← subM m p.high p.low
+  let l ← s.low.get p.low
+  let a ← shiftAmtOld m s.width
+  let v ← addM m ((d <<< a) % U64) l.toNat
+  return (p.low, v)
+
 def pos (m : Mode) (s : Sparse) (rank : Nat) : Outcome Pos := do
   let h ← s.high.selectQ m rank >>= unwrapM
   return ⟨h, rank⟩
